@@ -434,8 +434,8 @@ def run(ctx: core.Ctx):
     try:
         if ctx.shard == 0:
             _container_enumeration(ctx)
-        core.run_given(ctx, flight_case('general'), lambda c: flight_body(ctx, c), max_examples=ctx.n(220, 2200), salt=1)
-        core.run_given(ctx, flight_case('low_ceiling'), lambda c: flight_body(ctx, c), max_examples=ctx.n(50, 400), salt=11)
+        core.run_given(ctx, flight_case('general'), lambda c: flight_body(ctx, c), max_examples=ctx.n(400, 5000), salt=1)
+        core.run_given(ctx, flight_case('low_ceiling'), lambda c: flight_body(ctx, c), max_examples=ctx.n(60, 800), salt=11)
     finally:
         core.reset_config()
     ret = ctx.labels.get('returned', 0)
